@@ -78,10 +78,32 @@ class LowerDimExpr:
 
     def _convert_op(self, name: str, operands: list[ir.Value]) -> ir.Value:
         if name == "floordiv":
+            # JAX dimension floordiv rounds toward -inf (Python ``//``) whereas ONNX
+            # integer Div truncates toward zero.  Integer Mod (fmod=0) takes the sign
+            # of the divisor like Python ``%``, so a - Mod(a, b) is the exact multiple
+            # b * floor(a / b) and dividing it is exact.
+            remainder = cast(
+                ir.Value,
+                self.ctx.builder.Mod(
+                    operands[0],
+                    operands[1],
+                    _outputs=[self.ctx.fresh_name("dimexpr_floordiv_mod")],
+                ),
+            )
+            self._set_metadata(remainder)
+            multiple = cast(
+                ir.Value,
+                self.ctx.builder.Sub(
+                    operands[0],
+                    remainder,
+                    _outputs=[self.ctx.fresh_name("dimexpr_floordiv_sub")],
+                ),
+            )
+            self._set_metadata(multiple)
             result = cast(
                 ir.Value,
                 self.ctx.builder.Div(
-                    operands[0],
+                    multiple,
                     operands[1],
                     _outputs=[self.ctx.fresh_name("dimexpr_div")],
                 ),
